@@ -5,6 +5,7 @@ import (
 	"go/token"
 	"go/types"
 	"sort"
+	"strconv"
 	"strings"
 
 	"golang.org/x/tools/go/ssa"
@@ -25,9 +26,41 @@ func (f nilFacts) clone() nilFacts {
 
 func intersect(a, b nilFacts) nilFacts {
 	n := nilFacts{}
+	var bN map[string]int64 // "N|x|y|" -> tightest constant in b (built on demand)
 	for k := range a {
 		if b[k] {
 			n[k] = true
+			continue
+		}
+		// x - y ≤ c1 on one side and x - y ≤ c2 on the other: x - y ≤ max(c1, c2) on both
+		if !strings.HasPrefix(k, "N|") {
+			continue
+		}
+		if bN == nil {
+			bN = map[string]int64{}
+			for kb := range b {
+				if strings.HasPrefix(kb, "N|") {
+					i := strings.LastIndexByte(kb, '|')
+					c, err := strconv.ParseInt(kb[i+1:], 10, 64)
+					if err != nil {
+						continue
+					}
+					if old, ok := bN[kb[:i+1]]; !ok || c < old {
+						bN[kb[:i+1]] = c
+					}
+				}
+			}
+		}
+		i := strings.LastIndexByte(k, '|')
+		ca, err := strconv.ParseInt(k[i+1:], 10, 64)
+		if err != nil {
+			continue
+		}
+		if cb, ok := bN[k[:i+1]]; ok {
+			if cb > ca {
+				ca = cb
+			}
+			n[k[:i+1]+strconv.FormatInt(ca, 10)] = true
 		}
 	}
 	return n
@@ -61,6 +94,7 @@ type NilAnalysis struct {
 	gArr    map[string][3]int64
 	lenSum  map[*ssa.Function][]*lenSummary
 	fieldLo map[fieldLoKey]int
+	byName  map[*ssa.Function]map[string]ssa.Value
 }
 
 func isNilable(t types.Type) bool {
